@@ -6,6 +6,8 @@ from __future__ import annotations
 
 import random
 
+seed_version = 2  # 2: shaped/mixed/Piola argument spaces and test != trial spaces
+
 import basix
 import basix.ufl
 import ufl
@@ -57,10 +59,26 @@ class Gen:
         if dgA == 2 and (cell == "tetrahedron" or arity == 2 and cell != "interval"):
             dgA = 1
         V = space(m, fmA, dgA)
-        u, v = ufl.TrialFunction(V), ufl.TestFunction(V)
+        Vu = V
+        self.shaped = None
+        rs = r.random()  # (drawn unconditionally so that the stream of later choices is stable)
+        if seed_version >= 2 and rs < 0.3 and cell in ("triangle", "quadrilateral", "interval", "tetrahedron"):
+            # shaped / mixed / Piola argument spaces (macro layouts of non-trivial elements), possibly test != trial
+            from .corpus import _ek_space
+            kinds = {"interval": ["P1xDG0"], "triangle": ["TH", "P1xDG0", "vP1xP1xDG0", "RTxDG0", "RT", "N1curl", "sym", "tensor", "MINI", "vDG1"],
+                     "quadrilateral": ["P1xDG0", "sym", "vDG1"], "tetrahedron": ["P1xDG0", "RT", "vDG1"]}[cell]
+            kd = self.pick(kinds)
+            if kd in ("TH", "tensor", "vP1xP1xDG0") and arity == 2:
+                kd = "P1xDG0"
+            V = Vu = _ek_space(m, kd)
+            self.shaped = kd
+        elif seed_version >= 2 and rs < 0.42 and arity == 2 and not quad:
+            Vu = space(m, "DG" , 1) if fmA != "DG" or dgA != 1 else space(m, "Lagrange", 1)
+            self.shaped = "test!=trial"
+        u, v = ufl.TrialFunction(Vu), ufl.TestFunction(V)
         x = ufl.SpatialCoordinate(m)
         n = ufl.FacetNormal(m) if itype != "cell" else None
-        self.info = {"cell": cell, "gdeg": gdeg, "itype": itype, "arity": arity, "coefficients": ncoef, "constants": len(consts), "argument": f"{fmA}{dgA}"}
+        self.info = {"cell": cell, "gdeg": gdeg, "itype": itype, "arity": arity, "coefficients": ncoef, "constants": len(consts), "argument": self.shaped or f"{fmA}{dgA}"}
 
         def restrict(e):
             if itype != "interior_facet":
@@ -161,6 +179,11 @@ class Gen:
                 return restrict(a)
             if arity == 0:
                 return S
+            if u.ufl_shape or v.ufl_shape:
+                one_ = one
+                def one(a):
+                    a = restrict(a)
+                    return a[tuple(r.randrange(n_) for n_ in a.ufl_shape)] if a.ufl_shape else a
             z = self.pick([1, 1, ufl.as_ufl(2.0 + 3.0j), ufl.as_ufl(-1.0j)])
             if arity == 1:
                 return inner(S, z * one(v))
@@ -169,6 +192,15 @@ class Gen:
         def argpart():
             if arity == 0:
                 return 1
+            if u.ufl_shape or v.ufl_shape:
+                def comp(a):
+                    a = restrict(a)
+                    return a[tuple(r.randrange(n_) for n_ in a.ufl_shape)] if a.ufl_shape else a
+                if arity == 1:
+                    return comp(v)
+                if r.random() < 0.5 and u.ufl_shape == v.ufl_shape:
+                    return inner(restrict(u), restrict(v))
+                return comp(u) * comp(v)
             def one(a):
                 el = a.ufl_function_space().ufl_element()
                 if el.embedded_superdegree >= 1 and r.random() < 0.4:
